@@ -258,3 +258,105 @@ Proof.
   rewrite L3 by assumption. cbn [obind fst snd].
   unfold num_end. fold is_dot_or_ns. rewrite R2n. rewrite !app_length. f_equal. f_equal. f_equal. lia.
 Qed.
+
+(* ================================================================== *)
+(* C. quoted strings: the lexeme up to the closing quote is read the   *)
+(*    same way whatever follows                                        *)
+(* ================================================================== *)
+
+Lemma var_width_loc n : forall point size ds p sz,
+  var_width n point size ds = Some (p, sz) ->
+  forall r2, var_width n point size (firstn (sz - size) ds ++ r2) = Some (p, sz).
+Proof.
+  induction n as [|n IH]; intros point size ds p sz H r2; [discriminate|].
+  pose proof (var_width_size _ _ _ _ _ _ H) as Hsz.
+  cbn [var_width] in H. destruct ds as [|c t]; [discriminate|].
+  destruct (sz - size)%nat as [|k] eqn:Ek; [lia|]. cbn [firstn app var_width].
+  destruct (c =? 125) eqn:Ec.
+  - destruct (Nat.ltb (S size) 5 || negb (is_scalar point)); [discriminate|]. exact H.
+  - destruct (hex_digit c) as [h|]; [|discriminate].
+    replace k with (sz - S size)%nat by lia. apply IH. exact H.
+Qed.
+
+Lemma hex4_inv ds c : hex4 ds = Some c -> exists h1 h2 h3 h4 t, ds = h1 :: h2 :: h3 :: h4 :: t.
+Proof. destruct ds as [|h1 [|h2 [|h3 [|h4 t]]]]; try discriminate. intros _. repeat eexists. Qed.
+
+Lemma read_escape_loc pos s v size : s <> [] -> read_escape pos s = Ok (v, size) ->
+  forall pos2 r2, read_escape pos2 (firstn size s ++ r2) = Ok (v, size).
+Proof.
+  intros Hs H pos2 r2. destruct s as [|b r]; [congruence|].
+  unfold read_escape in H. cbv zeta in H. cbn [tl] in H.
+  destruct (peek_is (N.eqb 117) r) eqn:Eu.
+  - destruct r as [|u r1]; [discriminate|]. cbn [tl] in H. cbn [peek_is] in Eu.
+    destruct (peek_is (N.eqb 123) r1) eqn:Eb.
+    + destruct r1 as [|br r3]; [discriminate|]. cbn [skipn] in H.
+      destruct (var_width 9 0 3 r3) as [[p sz]|] eqn:Ev; [|discriminate]. inversion H; subst v size.
+      pose proof (var_width_size _ _ _ _ _ _ Ev) as Hsz.
+      destruct sz as [|[|[|k]]]; try lia. cbn [firstn app].
+      unfold read_escape. cbv zeta. cbn [tl skipn peek_is]. rewrite Eu. cbn [peek_is] in Eb. rewrite Eb.
+      pose proof (var_width_loc _ _ _ _ _ _ Ev r2) as L.
+      replace (S (S (S k)) - 3)%nat with k in L by lia. rewrite L. reflexivity.
+    + cbn [skipn] in H. destruct (hex4 r1) as [code|] eqn:Eh; [|discriminate].
+      destruct (hex4_inv _ _ Eh) as (h1 & h2 & h3 & h4 & t4 & ->).
+      destruct (is_scalar code) eqn:Esc.
+      * inversion H; subst v size. cbn [firstn app].
+        unfold read_escape. cbv zeta. cbn [tl skipn peek_is]. rewrite Eu. cbn [peek_is] in Eb. rewrite Eb.
+        cbn [hex4] in Eh |- *. rewrite Eh, Esc. reflexivity.
+      * destruct (is_lead code && starts2 92 117 t4) eqn:El; [|discriminate].
+        destruct t4 as [|x [|y t6]]; try (cbn [starts2] in El; rewrite andb_false_r in El; discriminate).
+        cbn [skipn] in H. destruct (hex4 t6) as [tr|] eqn:Eh2; [|discriminate].
+        destruct (hex4_inv _ _ Eh2) as (k1 & k2 & k3 & k4 & t10 & ->).
+        destruct (is_trail tr) eqn:Et; [|discriminate]. inversion H; subst v size. cbn [firstn app].
+        unfold read_escape. cbv zeta. cbn [tl skipn peek_is]. rewrite Eu. cbn [peek_is] in Eb. rewrite Eb.
+        cbn [hex4] in Eh, Eh2 |- *. rewrite Eh, Esc. cbn [starts2] in El |- *. rewrite El, Eh2, Et. reflexivity.
+  - destruct r as [|c r']; [discriminate|]. destruct (escaped_char c) as [w|] eqn:Ee; [|discriminate].
+    inversion H; subst v size. cbn [firstn app].
+    unfold read_escape. cbv zeta. cbn [tl]. cbn [peek_is] in Eu |- *. rewrite Eu, Ee. reflexivity.
+Qed.
+
+Lemma firstn_skipn_app {A} n (s r2 : list A) : (n <= length s)%nat -> skipn n (firstn n s ++ r2) = r2.
+Proof.
+  intros H. rewrite skipn_app, firstn_length, Nat.min_l by exact H. rewrite Nat.sub_diag.
+  rewrite skipn_firstn_comm, Nat.sub_diag. reflexivity.
+Qed.
+
+Lemma rsl_loc fuel : forall pos acc s e v r,
+  read_string_loop fuel pos acc s = Ok (e, v, r) ->
+  exists a, s = a ++ r /\ e = (pos + length a)%nat /\
+    forall fuel2 pos2 r2, (length (a ++ r2) < fuel2)%nat ->
+      read_string_loop fuel2 pos2 acc (a ++ r2) = Ok ((pos2 + length a)%nat, v, r2).
+Proof.
+  induction fuel as [|f IH]; intros pos acc s e v r H; [discriminate|].
+  cbn [read_string_loop] in H. destruct s as [|c t]; [discriminate|].
+  destruct (c =? 34) eqn:Eq.
+  { inversion H; subst. exists [c]. split; [reflexivity|]. split; [cbn; lia|].
+    intros fuel2 pos2 r2 Hf. destruct fuel2 as [|f2]; [lia|]. cbn [app read_string_loop]. rewrite Eq.
+    cbn [length]. f_equal. f_equal. f_equal. lia. }
+  destruct (c =? 92) eqn:Eb.
+  { destruct (read_escape pos (c :: t)) as [[w size]| | |] eqn:Ee; try discriminate.
+    pose proof (read_escape_size _ _ _ _ ltac:(discriminate) Ee) as Hsz.
+    apply IH in H as (a' & Es & -> & L).
+    exists (firstn size (c :: t) ++ a'). split.
+    { rewrite <- app_assoc, <- Es. symmetry. apply firstn_skipn. }
+    split; [rewrite app_length, firstn_length, Nat.min_l by lia; lia|].
+    intros fuel2 pos2 r2 Hf. destruct fuel2 as [|f2]; [lia|].
+    rewrite app_length, firstn_length, Nat.min_l in * by lia. rewrite <- app_assoc.
+    assert (Ehd : firstn size (c :: t) ++ a' ++ r2 = c :: (firstn (size - 1) t ++ a' ++ r2)).
+    { destruct size as [|k]; [lia|]. cbn [firstn app]. rewrite Nat.sub_0_r. reflexivity. }
+    rewrite Ehd. cbn [read_string_loop]. rewrite Eq, Eb. rewrite <- Ehd.
+    rewrite (read_escape_loc _ _ _ _ ltac:(discriminate) Ee pos2 (a' ++ r2)).
+    rewrite firstn_skipn_app by lia. rewrite L.
+    - f_equal. f_equal. f_equal. lia.
+    - rewrite !app_length in *. lia. }
+  destruct ((c =? LF) || (c =? CR)) eqn:Elt; [discriminate|].
+  destruct (is_scalar c) eqn:Esc.
+  { apply IH in H as (a' & -> & -> & L). exists (c :: a'). split; [reflexivity|]. split; [cbn; lia|].
+    intros fuel2 pos2 r2 Hf. destruct fuel2 as [|f2]; [lia|]. cbn [app read_string_loop].
+    rewrite Eq, Eb, Elt, Esc. rewrite L by (cbn [app length] in Hf; lia). cbn [length]. f_equal. f_equal. f_equal. lia. }
+  destruct (is_lead c && peek_is is_trail t) eqn:Ep; [|discriminate].
+  destruct t as [|d t']; [rewrite andb_false_r in Ep; discriminate|]. cbn [hd tl] in H.
+  apply IH in H as (a' & -> & -> & L). exists (c :: d :: a'). split; [reflexivity|]. split; [cbn; lia|].
+  intros fuel2 pos2 r2 Hf. destruct fuel2 as [|f2]; [lia|]. cbn [app read_string_loop].
+  rewrite Eq, Eb, Elt, Esc. cbn [peek_is] in Ep |- *. rewrite Ep. cbn [hd tl].
+  rewrite L by (cbn [app length] in Hf; lia). cbn [length]. f_equal. f_equal. f_equal. lia.
+Qed.
